@@ -173,6 +173,13 @@ def c13_r2(ctx, f):
         fd = [c for c in fn.calls() if (c.name or "").endswith("Tree::from_data")]
         rn = [c for c in fn.calls() if (c.name or "").endswith("resvg::render") or (c.name or "") == "resvg::render"]
         ok = len(ts) == 1 and len(fd) == 1 and len(rn) == 1
+        if not ok and len(ts) == 0 and len(fd) == 1 and len(rn) == 1:
+            # the document may be produced through a crate helper (bytes of to_str): followed one level down, no further
+            via = [c for c in fn.calls() if c.name and f.fn(c.name) is not None and len(f.fn(c.name).calls(SVGB + "::to_str")) == 1]
+            if len(via) == 1:
+                ctx.abstain(rid, "to_pixmap obtains the document through %s (which calls to_str once): the pipeline's data flow is not read "
+                                 "across that helper" % via[0].name, where_fn(fn))
+                return
         ctx.check(rid, ok, fn.path + "/pipeline", where_fn(fn), fn.path, "to_str -> from_data -> render", "raster pipeline calls not found once each",
                   found=dict(to_str=len(ts), from_data=len(fd), render=len(rn)), sample="to_str -> Tree::from_data -> render")
         if ok:
